@@ -41,6 +41,9 @@ def build_executor(case):
             from executorlib.standalone.interactive.spawner import SrunSpawner as sp
         return InteractiveStepExecutor(max_cores=case.get("max_cores"), max_workers=case.get("max_workers"),
                                        executor_kwargs=ek, spawner=sp)
+    if mode == "exec":
+        from executorlib import Executor
+        return Executor(**case["kwargs"])
     if mode in ("dep-block", "dep-step"):
         from executorlib import Executor
         return Executor(max_workers=case.get("max_workers"), max_cores=case.get("max_cores"), backend="local",
@@ -92,6 +95,7 @@ def value_repr(f):
 def run_case(case):
     import sim
     ctl = sim.install(case.get("schedule", []), case.get("step_limit", 3000))
+    ctl.stall_timeout = case.get("stall_timeout", 20)
     calls = case["calls"]
     futs = {}
     outcomes = []
